@@ -46,13 +46,17 @@ pub fn dbank() -> &'static [&'static DBig] {
 }
 
 pub fn rbank() -> &'static [&'static RBig] {
-    static BANK: [&RBig; 6] = [
+    static BANK: [&RBig; 9] = [
         static_rbig!(0),
         static_rbig!(1),
         static_rbig!(-1234567890123456789 / 9876543210987654323),
         static_rbig!(-2 / 9876543210987654323),
         static_rbig!(-123456789012345678901234567 / 987654321098765432109876543),
         static_rbig!(123456789012345678901234567890123456789012345678901234567890123456789012345678901234567891 / 1000000000000000000000000000000000000000000000000000000000000000000000007),
+        // literals that are not in lowest terms as written (odd and even common factors)
+        static_rbig!(3 / 9),
+        static_rbig!(-35 / 21),
+        static_rbig!(370370367037037036703703703670 / 29629629362962962936296296293600),
     ];
     &BANK
 }
